@@ -37,7 +37,7 @@ m = {"version": 1, "setup_cmd": "./check --setup", "hooks": hooks,
      "engines": [{"name": "lean4+correspondence", "path": "lean/ + harness/", "serves_properties": built,
                   "kind_free_text": "Lean 4 theorems about executable, Mathlib-free models (lean/Pywbem/Model), native line-protocol drivers (lean/Driver), Python differential harness running the real pywbem from /repo (harness/), narrow source->Lean table translator (tools/extract.py)"}],
      "checks": checks, "not_applicable": na,
-     "notes": "See DESIGN.md. 'check not built yet' under not_applicable means in progress, not judged inapplicable."}
+     "notes": "See DESIGN.md (section 0: what was built; section 7: trusted base) and design.d/Cxx.md per property. Known findings: known_findings.json + known_findings.d/Cxx.json (open entries print KNOWN-FINDING lines and exit 0; fixed entries name the fix: commit in /repo and suppress nothing; never written at run time). Seeded breaking changes with the checks' verdicts: seeded/<id>/ and design.d/SEEDED.md. All 20 properties are claimed; not_applicable is empty."}
 json.dump(m, open(os.path.join(V, 'MANIFEST.json'), 'w'), indent=1)
 try:
     import jsonschema
